@@ -247,6 +247,10 @@ class SpecTheory(object):
                 raise ContractError('spec function %s must be a single return' % name)
             body = rets[0].value
             params = [a.arg for a in fdef.args.args]
+            if getattr(f, '_spec_inline', False):
+                # a non-recursive scalar helper: every application IS its body (no declaration, nothing to unfold)
+                self.funcs[name] = self._inline_fn(name, params, f._spec_argtypes, body)
+                continue
             if isinstance(body, ast.ListComp):
                 # pointwise definition of an array-valued spec function:  F(args)[c] == elt
                 d = z3.Function(name, *(argsorts + [retsort]))
@@ -298,6 +302,17 @@ class SpecTheory(object):
             for key, val in table.items():
                 e = z3.If(z3.And(*[a == k for a, k in zip(args, key)]), z3.IntVal(val), e)
             return e
+        return fn
+
+    def _inline_fn(self, name, params, types, body):
+        if any(t != 'int' for t in types):
+            raise ContractError('inline spec function %s: integer arguments only' % name)
+        if any(isinstance(x, ast.Call) and isinstance(x.func, ast.Name) and x.func.id == name for x in ast.walk(body)):
+            raise ContractError('inline spec function %s is recursive' % name)
+
+        def fn(*args):
+            ev = SpecEval(self, {p: as_num(a) for p, a in zip(params, args)}, {}, None, None)
+            return to_z3(ev.ev(body))
         return fn
 
     def _macro_fn(self, name, params, types, body):
@@ -855,7 +870,7 @@ def array_binop(op, a, b, node=None):
 
 
 def elem_sort(elem):
-    return {'int': I, 'real': R, 'cplx': CPLX, 'bool': I}[elem]      # boolean arrays are 0/1 integer arrays
+    return {'int': I, 'real': R, 'cplx': CPLX, 'bool': I, 'char': I, 'strc': I}[elem]      # boolean arrays are 0/1 integer arrays; characters are their code points
 
 
 def arr_sort(ndim, elem='int'):
